@@ -20,7 +20,7 @@ RULE = (
     "non-trivial = some source expression in the optimized plan carries strictly fewer columns than its table offers; distinct by program hash"
 )
 ASSUMPTIONS = c01.ASSUMPTIONS
-BUDGET_S = {"quick": 170, "thorough": 3000}
+BUDGET_S = {"quick": 170, "thorough": 900}
 
 W = {"cols": 5, "col": 4, "drop": 2, "rename": 2.5, "add_affix": 1.0, "assign": 3, "merge": 4, "merge_index": 1.5, "groupby_agg": 3, "sort_values": 2,
      "set_index": 2, "shuffle": 1.2, "dropna": 1.5, "drop_duplicates": 1.2, "nlargest": 1.2, "filter_pred": 2.5, "concat0": 1, "concat1": 1, "partitions": 0.3, "cut": 0.3}
